@@ -766,8 +766,9 @@ class Engine:
                 assoc_path(self.topology, path, topology_update)
 
         if flow_updates:
-            for path, topology_update in flow_updates:
-                assoc_path(self.flow, path, flow_updates)
+            for path, flow_update in flow_updates:
+                if flow_update is not None:
+                    assoc_path(self.flow, path, flow_update)
 
         if process_updates:
             for path, process in process_updates:
